@@ -1,5 +1,6 @@
 import LocustModel.Store.Machine
 import LocustModel.Store.Spec
+import LocustModel.Gen.WalProtocol
 /-
   The storage machine with `wal_flush` refined into its real steps, ingestion allowed in between, and the
   `force_flush` request protocol of `enforce_wal_limit` (C08, C13, C18 on INTERLEAVED histories).
@@ -14,12 +15,13 @@ import LocustModel.Store.Spec
         persist_metastore(unflushed.end)               -- the CAPTURED end, serialised cursor = earliest       `flushMeta`
         delete_orphaned_partitions                                                                             `flushGcParts`
         delete_wal_segments(unflushed)                 -- the CAPTURED range                                   `flushGcWal`
+      back in enforce_wal_limit: answer the requests taken BEFORE the flush                                    `flushAnswer`
     ingest_efficient: { lock wal_size; while *wal_size > max { wait }; … whole body … }  — excluded only by the freeze
         block; between any two of the steps above an ingestion may run: its segment gets an id ≥ unflushed.end, its
         rows go to the NEW open buffer, `wal_size` counts from 0 again.
     trigger_wal_flush (= force_flush): push a sender on pending_wal_flushes, block until the flush thread answers.
 
-  `Machine.flush` is `flushBegin ; flushBatch ; flushMeta ; flushGcParts ; flushGcWal` without anything in between
+  `Machine.flush` is `flushBegin ; flushBatch ; flushMeta ; flushGcParts ; flushGcWal ; flushAnswer` without anything in between
   (`flush_eq_steps`).  A clean restart happens only when no flush is in flight and no force_flush call is blocked.
   The steps are enabled more often than in the code (a flush may start without a trigger, an ingestion may run although
   the log-size gate is closed): the safety theorems therefore cover a superset of the real histories; the gate and the
@@ -36,6 +38,7 @@ inductive Stage where
   | batched     -- batching, persist_partitions and all compactions done
   | persisted   -- persist_metastore done
   | swept       -- delete_orphaned_partitions done
+  | wiped       -- delete_wal_segments done: `wal_flush` has returned, the requests taken before it are not answered yet
   deriving DecidableEq, Repr
 
 /-- The local variables of the running `wal_flush` (+ the requests this loop iteration took). -/
@@ -61,7 +64,8 @@ inductive IOp (ν κ : Type) where
   | flushBatch (fi : FlushIn ν)
   | flushMeta
   | flushGcParts
-  | flushGcWal                               -- … and answer the requests taken by this iteration
+  | flushGcWal
+  | flushAnswer                              -- `for sender in pending_wal_flushes { sender.send(()) }`: answer the requests taken before the flush
   | restart (order : Nat → Request ν κ → Request ν κ)
 
 inductive IErr where
@@ -128,7 +132,13 @@ def istep (P : Params ν κ) (iw : IWorld ν κ) : IOp ν κ → Except IErr (IW
   | .flushGcWal =>
     match iw.fl with
     | some f =>
-      if f.stage = .swept then .ok { iw with w := deleteWal iw.w f.lo f.hi, fl := none, done := iw.done ++ f.served }
+      if f.stage = .swept then .ok { iw with w := deleteWal iw.w f.lo f.hi, fl := some { f with stage := .wiped } }
+      else .error .disabled
+    | none => .error .disabled
+  | .flushAnswer =>
+    match iw.fl with
+    | some f =>
+      if f.stage = .wiped then .ok { iw with fl := none, done := iw.done ++ f.served }
       else .error .disabled
     | none => .error .disabled
   | .restart order =>
@@ -148,8 +158,8 @@ def iinit (P : Params ν κ) : IWorld ν κ := ⟨initWorld P, none, [], []⟩
 /-- Run an interleaved history from a fresh database. -/
 def irun (P : Params ν κ) (ops : List (IOp ν κ)) : Except IErr (IWorld ν κ) := ifold P ops (iinit P)
 
-/-- The five steps of one flush, nothing in between. -/
-def flushOps (fi : FlushIn ν) : List (IOp ν κ) := [.flushBegin 0, .flushBatch fi, .flushMeta, .flushGcParts, .flushGcWal]
+/-- The steps of one flush, nothing in between. -/
+def flushOps (fi : FlushIn ν) : List (IOp ν κ) := [.flushBegin 0, .flushBatch fi, .flushMeta, .flushGcParts, .flushGcWal, .flushAnswer]
 
 /-- A sequential history as an interleaved one. -/
 def embed : List (Op ν κ) → List (IOp ν κ)
@@ -177,15 +187,18 @@ def sinceFreeze (ops : List (IOp ν κ)) : Nat :=
 -- ------------------------------------------------------------------------------------------------
 -- The log-size gate of ingestion and the triggers of the flush thread (C18).
 
-/-- `ingest_efficient`, head: `while *wal_size > self.opts.max_wal_size_bytes { wait }`. -/
-def ingestWaits (P : Params ν κ) (iw : IWorld ν κ) : Prop := iw.w.mem.walSize > P.maxWalSize
+/-- `ingest_efficient`, head: `while *wal_size <cmp> self.opts.max_wal_size_bytes { wait }` — the comparison is the one
+    found in the source (`Gen/WalProtocol.lean`, regenerated by every check run). -/
+def ingestWaits (P : Params ν κ) (iw : IWorld ν κ) : Prop :=
+  LM.Gen.WalProtocol.ingestGate.holds iw.w.mem.walSize P.maxWalSize = true
 
 instance (P : Params ν κ) (iw : IWorld ν κ) : Decidable (ingestWaits P iw) := by unfold ingestWaits; exact inferInstance
 
-/-- `enforce_wal_limit`: `wal_size > max_wal_size_bytes || !pending_wal_flushes.is_empty() || too_many_wal_files`
-    (`wal_file_count = unflushed.end - unflushed.start > max_wal_files`). -/
+/-- `enforce_wal_limit`: `wal_size <cmp> max_wal_size_bytes || !pending_wal_flushes.is_empty() || too_many_wal_files`
+    (`wal_file_count = unflushed.end - unflushed.start <cmp> max_wal_files`), comparisons as found in the source. -/
 def flushTriggered (P : Params ν κ) (maxWalFiles : Nat) (iw : IWorld ν κ) : Prop :=
-  iw.w.mem.walSize > P.maxWalSize ∨ iw.pending ≠ [] ∨ iw.w.mem.cat.nextWal - iw.w.mem.cat.earliest > maxWalFiles
+  LM.Gen.WalProtocol.flushTriggerSize.holds iw.w.mem.walSize P.maxWalSize = true ∨ iw.pending ≠ [] ∨
+  LM.Gen.WalProtocol.flushTriggerFiles.holds (iw.w.mem.cat.nextWal - iw.w.mem.cat.earliest) maxWalFiles = true
 
 instance (P : Params ν κ) (m : Nat) (iw : IWorld ν κ) : Decidable (flushTriggered P m iw) := by
   unfold flushTriggered; exact inferInstance
@@ -193,14 +206,15 @@ instance (P : Params ν κ) (m : Nat) (iw : IWorld ν κ) : Decidable (flushTrig
 /-- The steps the flush thread still has to perform for the flight in stage `st`. -/
 def finishOps (st : Stage) (fi : FlushIn ν) : List (IOp ν κ) :=
   match st with
-  | .frozen => [.flushBatch fi, .flushMeta, .flushGcParts, .flushGcWal]
-  | .batched => [.flushMeta, .flushGcParts, .flushGcWal]
-  | .persisted => [.flushGcParts, .flushGcWal]
-  | .swept => [.flushGcWal]
+  | .frozen => [.flushBatch fi, .flushMeta, .flushGcParts, .flushGcWal, .flushAnswer]
+  | .batched => [.flushMeta, .flushGcParts, .flushGcWal, .flushAnswer]
+  | .persisted => [.flushGcParts, .flushGcWal, .flushAnswer]
+  | .swept => [.flushGcWal, .flushAnswer]
+  | .wiped => [.flushAnswer]
 
 /-- The steps only the flush thread performs. -/
 def IOp.isFlushThread : IOp ν κ → Bool
-  | .flushBegin _ | .flushBatch _ | .flushMeta | .flushGcParts | .flushGcWal => true
+  | .flushBegin _ | .flushBatch _ | .flushMeta | .flushGcParts | .flushGcWal | .flushAnswer => true
   | _ => false
 
 -- ------------------------------------------------------------------------------------------------
@@ -214,7 +228,7 @@ def persistMetaNext (w : World ν κ) (cursorEnd : Nat) : World ν κ :=
            disk := { w.disk with metaFile := some ⟨cat'.nextWal, cat'.parts⟩ } }
 
 /-- The interleaved machine with (a) the cursor variant above and/or (b) the requests answered at the end of a flush
-    being ALL requests pending then, instead of the ones taken before the flush began. -/
+    being ALL requests pending when the flush has returned, instead of the ones taken before the flush began. -/
 def istepVar (badCursor badTake : Bool) (P : Params ν κ) (iw : IWorld ν κ) (op : IOp ν κ) : Except IErr (IWorld ν κ) :=
   match op with
   | .flushMeta =>
@@ -225,12 +239,12 @@ def istepVar (badCursor badTake : Bool) (P : Params ν κ) (iw : IWorld ν κ) (
                       fl := some { f with stage := .persisted } }
       else .error .disabled
     | none => .error .disabled
-  | .flushGcWal =>
+  | .flushAnswer =>
     match iw.fl with
     | some f =>
-      if f.stage = .swept then
-        if badTake then .ok { iw with w := deleteWal iw.w f.lo f.hi, fl := none, done := iw.done ++ f.served ++ iw.pending, pending := [] }
-        else .ok { iw with w := deleteWal iw.w f.lo f.hi, fl := none, done := iw.done ++ f.served }
+      if f.stage = .wiped then
+        if badTake then .ok { iw with fl := none, done := iw.done ++ f.served ++ iw.pending, pending := [] }
+        else .ok { iw with fl := none, done := iw.done ++ f.served }
       else .error .disabled
     | none => .error .disabled
   | op => istep P iw op
